@@ -480,7 +480,7 @@ def rel(a, b):
     return abs(a - b) / max(abs(a), abs(b), 1e-300)
 
 
-def small_correspondence(ck: Check, drv, count: int):
+def small_correspondence(ck: Check, drv, count: int, fails=None):
     torch = tt()
     for it in range(count):
         kind = "pow2" if it % 2 == 0 else "dyadic"
@@ -492,8 +492,19 @@ def small_correspondence(ck: Check, drv, count: int):
         only_states = all(_state_of(case["tips"][i][s]) <= case["S"] and
                           (sum(case["tips"][i][s]) in (1.0, float(case["S"]))) for i in range(case["n"]) for s in range(case["N"]))
         variants = ["plain", "resc", "safe"] + (["tsplain", "tsresc"] if only_states else [])
+        plain_v = None
         for variant in variants:
+            if variant == "tsplain":
+                plain_v = None
             v, nodes, err = call_direct(case, variant)
+            # the property's own oracle on the implementation: rescaled / safe agree with the unrescaled value
+            if err is None and math.isfinite(float(v)):
+                if variant in ("plain", "tsplain"):  # tip-state variants are compared with the tip-state plain pass
+                    plain_v = float(v)
+                elif plain_v is not None and rel(float(v), plain_v) > TOL and fails is not None:
+                    fails.append({"kind": "direct-disagree", "variant": variant, "case": case, "cfg": {"n": case["n"]},
+                                  "values": [float(v)], "reference": [plain_v], "rel_err": rel(float(v), plain_v),
+                                  "calls": [variant], "label": "direct call"})
             m = model_direct(drv, case, variant)
             key = (kind, variant, case["n"], case["S"], case["K"], case["N"], it)
             ck.case(key=key, bucket=f"small/{kind}/{variant}",
@@ -542,16 +553,19 @@ def small_correspondence(ck: Check, drv, count: int):
 # ----------------------------------------------------------------------------------------------
 
 
-def band_sizes(per_taxon_log: float, count: int, lo_pad=0.06, hi_pad=0.05):
+def band_sizes(per_taxon_log: float, thorough: bool):
     """tree sizes stepping through the band where the smallest site likelihood passes
-    2.2e-308 (log -708.4) -> 4.9e-324 (log -744.4) -> 0"""
-    n_lo = 708.4 / per_taxon_log
-    n_hi = 744.5 / per_taxon_log
-    a = n_lo * (1 - lo_pad)
-    b = n_hi * (1 + hi_pad)
-    inner = max(count - 4, 2)
-    xs = [a, (a + n_lo) / 2] + [n_lo + (n_hi - n_lo) * i / (inner - 1) for i in range(inner)] + [(n_hi + b) / 2, b]
-    return sorted({max(4, int(round(x))) for x in xs})
+    2.2e-308 (log -708.4) -> 4.9e-324 (log -744.4) -> 0.  Targets are site log-likelihoods; the part of the
+    band where a plain float64 pass has lost enough bits to miss 1e-8 is its lower third, so sizes are denser there."""
+    # around -92 (= log 1e-40, the `threshold` at which the repaired model leaves the plain pass): the sizes where the
+    # plain result is still kept / just abandoned, i.e. "before and after the switch"
+    if thorough:
+        targets = ([-40.0, -70.0, -84.0, -88.0, -90.0, -92.0, -94.0, -96.0, -100.0, -130.0, -300.0, -660.0, -690.0]
+                   + [-700.0 - 1.0 * i for i in range(49)] + [-750.0, -760.0, -800.0])
+    else:
+        targets = [-75.0, -90.0, -93.0, -96.0, -120.0,
+                   -685.0, -709.0, -722.0, -730.0, -735.0, -739.0, -742.0, -744.2, -748.0, -790.0]
+    return sorted({max(4, int(round(-t / per_taxon_log))) for t in targets})
 
 
 class Hist:
@@ -591,7 +605,7 @@ def check_wf(ck, drv, like):
                     {"taxa": T, "reply": rep, "postorder_head": [list(t) for t in post[:6]]})
 
 
-def eval_and_check(ck, drv, h: Hist, label, refs, fails, want_mp=False):
+def eval_and_check(ck, drv, h: Hist, label, refs, fails, want_mp=False, group="sweep"):
     """one evaluation of the real model, compared with the reference. `refs`: cache key->(total, logs)."""
     torch = tt()
     cfg = h.cfg
@@ -626,8 +640,9 @@ def eval_and_check(ck, drv, h: Hist, label, refs, fails, want_mp=False):
         e = rel(x, r)
         worst = max(worst, e if math.isfinite(e) else 1.0)
         zone = "normal" if site_min[s] > -708.39 else ("denormal" if site_min[s] > -744.4 else "zero")
-        ck.case(key=(label, cfg["shape"], cfg["model"], cfg["n"], cfg.get("K", 1), tipst, s, branch),
-                bucket=f"sweep/{zone}/{branch}",
+        ck.case(key=(group, label, cfg["shape"], cfg["model"], cfg["n"], cfg.get("K", 1), tipst, s, branch,
+                     cfg["t"] if not isinstance(cfg["t"], list) else tuple(cfg["t"])),
+                bucket=f"{group}/{zone}/{branch}",
                 sample={"sweep": label, "shape": cfg["shape"], "model": cfg["model"], "n": cfg["n"], "branch": branch,
                         "impl": x, "reference": r, "rel_err": e, "min_site_log": site_min[s]})
         if not math.isfinite(x):
@@ -674,26 +689,25 @@ def sweep(ck: Check, drv, budget_s: float):
     thorough = ck.thorough()
     fails = []
     t_start = time.time()
-    nsz = 24 if thorough else 8
     # (shape, model, K, t, tip_states)
     configs = [
         ("caterpillar", "JC69", 1, 5.0, False),
         ("balanced", "HKY", 1, 2.0, False),
         ("random", "JC69", 4, 1.5, False),
-        ("balanced", "JC69", 1, 5.0, True),
+        ("balanced", "HKY", 1, 3.0, True),
     ]
     if thorough:
         configs += [
             ("random", "GTR", 1, 1.0, False),
             ("caterpillar", "HKY", 4, 3.0, False),
-            ("random", "HKY", 1, 0.7, True),
+            ("random", "JC69", 1, 0.7, True),
             ("balanced", "JC69", 1, [0.3, 5.0, 1.0], False),
         ]
     refs = {}
     per_cfg = budget_s / len(configs)
     for ci, (shape, model, K, t, tipst) in enumerate(configs):
         t_cfg = time.time()
-        nsites = 3 if K == 1 else 1
+        nsites = (5 if thorough else 3) if K == 1 else (2 if thorough else 1)
         nmax = 1400
         sites_all = random_sites(rng, nmax, nsites)
         base = {"shape": shape, "model": model, "K": K, "t": t, "tip_states": tipst, "seed_shape": rng.randrange(10 ** 6),
@@ -702,11 +716,13 @@ def sweep(ck: Check, drv, budget_s: float):
         if d is None or d <= 0:
             ck.notes.append(f"probe failed for {shape}/{model}")
             continue
-        sizes = [n for n in band_sizes(d, nsz) if n <= nmax]
+        sizes = [n for n in band_sizes(d, thorough) if n <= nmax]
+        ck.extra.setdefault("sweep_sizes", {})[f"{shape}/{model}/K={K}/t={t}/{'tip-states' if tipst else 'tip-partials'}"] = sizes
         # the batch / parameter-change histories first (they are the rarer inputs), then the size sweep
         order = list(range(len(sizes)))
         rng.shuffle(order)  # if the budget cuts the sweep short, the sizes covered are spread over the band
-        mid = sizes[len(sizes) // 2]
+        big = [n for n in sizes if n * d > 600.0] or sizes
+        mid = big[len(big) // 2]
         # (d) a batch in which only some samples underflow, evaluated twice
         cfgb = dict(base, n=mid, sites=sites_all[:mid], batch=[1.0, 0.01, 0.6])
         hb = Hist(cfgb)
@@ -745,6 +761,122 @@ def sweep(ck: Check, drv, budget_s: float):
 
 
 # ----------------------------------------------------------------------------------------------
+# part 3: MIXED alignments — well-behaved columns next to column(s) whose site likelihood is in the denormal band
+# ----------------------------------------------------------------------------------------------
+
+
+def mixed_sites(rng, n: int, n_band: int, frac: float):
+    """per-taxon strings: three constant columns (A, C, G: high likelihood on short branches) followed by `n_band`
+    columns that are 'A' except for 'C'/'G'/'T' at a random subset of about frac*n tips (each isolated odd tip costs
+    one substitution: on short branches the site likelihood is ~ (t/3)^(number of odd tips))"""
+    cols = ["A" * n, "C" * n, "G" * n]
+    ms = []
+    for b in range(n_band):
+        m = max(2, int(round(frac * n * (1.0 - 0.04 * b))))  # later band columns a little shallower
+        odd = set(rng.sample(range(n), m))
+        cols.append("".join(rng.choice("CGT") if i in odd else "A" for i in range(n)))
+        ms.append(m)
+    return ["".join(c[i] for c in cols) for i in range(n)], ms
+
+
+def site_logs_at(drv, cfg):
+    """exact per-site log-likelihoods of a scratch model (used to tune the branch length; not counted as a case)"""
+    b = build_model(cfg)
+    rec = observe(b.like)
+    if "error" in rec:
+        return None
+    tot, logs = reference(drv, b.like, rec["mats"], rec["freqs"], rec["props"], None)
+    return logs if tot is not None else None
+
+
+def tune_t(drv, base, m: int, target: float, t_guess=None):
+    """branch length (all branches equal) at which the smallest site log-likelihood is ~ target"""
+    t = t_guess if t_guess is not None else 3.0 * math.exp(target / m)
+    slope = float(m)
+    last = None
+    for _ in range(4):
+        logs = site_logs_at(drv, dict(base, t=t))
+        if logs is None:
+            return None, None
+        cur = min(logs)
+        if last is not None and abs(math.log(t) - last[0]) > 1e-9:
+            slope = max(1.0, (cur - last[1]) / (math.log(t) - last[0]))
+        if abs(cur - target) < 1.5:
+            return t, cur
+        last = (math.log(t), cur)
+        t = math.exp(math.log(t) + (target - cur) / slope)
+    return t, cur
+
+
+def mixed_sweep(ck: Check, drv, budget_s: float):
+    rng = ck.rng
+    thorough = ck.thorough()
+    fails, refs = [], {}
+    t_start = time.time()
+    # (shape, n, model, K, tip_states, number of band columns)
+    configs = [
+        ("balanced", 256, "JC69", 4, False, 1),
+        ("random", 300, "HKY", 4, True, 2),
+        ("balanced", 256, "HKY", 1, False, 1),
+    ]
+    if thorough:
+        configs += [
+            ("random", 400, "JC69", 4, True, 3),
+            ("balanced", 512, "GTR", 4, False, 2),
+            ("random", 350, "HKY", 4, False, 1),
+            ("balanced", 256, "JC69", 1, True, 1),
+        ]
+    targets = [-712.0, -726.0, -733.0, -738.0, -741.5, -744.0] if thorough else [-715.0, -731.0, -738.0, -742.5]
+    for ci, (shape, n, model, K, tipst, n_band) in enumerate(configs):
+        if time.time() - t_start > budget_s:
+            ck.notes.append(f"mixed sweep budget reached before configuration {ci}")
+            break
+        sites, ms = mixed_sites(rng, n, n_band, 0.3)
+        base = {"shape": shape, "model": model, "K": K, "tip_states": tipst, "seed_shape": rng.randrange(10 ** 6),
+                "sites": sites, "n": n, "mixed": True, "t": 0.0}
+        t_prev = None
+        tuned = []
+        for target in targets:
+            t, got = tune_t(drv, base, ms[0], target, t_prev)
+            if t is None:
+                ck.notes.append(f"mixed: tuning failed for {shape}/{model} target {target}")
+                continue
+            t_prev = t
+            tuned.append((target, t, got))
+        ck.extra.setdefault("mixed_alignments", {})[f"{shape}/n={n}/{model}/K={K}/{'tip-states' if tipst else 'tip-partials'}"] = {
+            "columns": "A*n, C*n, G*n + %d band column(s) with %s odd tips" % (n_band, ms),
+            "tuned": [{"target_min_site_log": a, "branch_length": b, "min_site_log": c} for a, b, c in tuned]}
+        for ti, (target, t, got) in enumerate(tuned):
+            if time.time() - t_start > budget_s:
+                ck.notes.append(f"mixed sweep budget reached in configuration {ci}")
+                break
+            cfg = dict(base, t=t)
+            h1 = Hist(cfg)
+            if ti == 0:
+                check_wf(ck, drv, h1.b.like)
+            eval_and_check(ck, drv, h1, "mixed-fresh", refs, fails, group="mixed")
+            eval_and_check(ck, drv, h1, "mixed-repeat", refs, fails, group="mixed")
+            h2 = Hist(cfg)
+            h2.preset()
+            eval_and_check(ck, drv, h2, "mixed-preset", refs, fails, group="mixed")
+            if ti % 2 == 1:
+                h3 = Hist(dict(cfg, tip_states=not tipst))
+                eval_and_check(ck, drv, h3, "mixed-fresh-other-tip-path", refs, fails, group="mixed")
+        # batch: sample 0 in the band, sample 1 flushed to zero (shorter branches), sample 2 comfortably normal
+        if tuned and time.time() - t_start <= budget_s:
+            target, t, got = tuned[len(tuned) // 2]
+            cfgb = dict(base, t=t, batch=[1.0, 0.5, 4.0])
+            hb = Hist(cfgb)
+            eval_and_check(ck, drv, hb, "mixed-batch-fresh", refs, fails, group="mixed")
+            eval_and_check(ck, drv, hb, "mixed-batch-repeat", refs, fails, group="mixed")
+            # and a batch in which NO sample has flushed to zero: band sample next to normal samples
+            cfgc = dict(base, t=t, batch=[1.0, 4.0, 9.0])
+            hc = Hist(cfgc)
+            eval_and_check(ck, drv, hc, "mixed-batch-band+normal", refs, fails, group="mixed")
+    return fails
+
+
+# ----------------------------------------------------------------------------------------------
 
 
 def zone_of(f):
@@ -753,7 +885,11 @@ def zone_of(f):
 
 
 def sig_of(f):
+    if f["kind"] == "direct-disagree":
+        return "calculate_treelikelihood:" + f["variant"] + ":disagrees-with-unrescaled"
     br = branch_name(f["calls"], False)
+    if f["kind"] == "inaccurate" and f["cfg"].get("mixed"):
+        return f"TreeLikelihoodModel:{br}:finite-but-inaccurate:{zone_of(f)}:mixed-alignment"
     if f["kind"] == "inaccurate":
         return f"TreeLikelihoodModel:{br}:finite-but-inaccurate:{zone_of(f)}"
     if f["kind"] == "not-finite":
@@ -796,8 +932,10 @@ def run(ck: Check):
             ck.bucket("reference-crosscheck/lograt")
             if abs(got - want) > 1e-12 * max(1.0, abs(want)):
                 ck.mismatch("driver logarithm differs from mpmath", {"p": p, "q": q, "got": got, "want": want})
-        small_correspondence(ck, drv, 240 if ck.thorough() else 50)
-        fails = sweep(ck, drv, 780.0 if ck.thorough() else 62.0)
+        direct_fails = []
+        small_correspondence(ck, drv, 240 if ck.thorough() else 50, direct_fails)
+        fails = direct_fails + sweep(ck, drv, 600.0 if ck.thorough() else 50.0)
+        fails += mixed_sweep(ck, drv, 240.0 if ck.thorough() else 30.0)
     finally:
         drv.close()
     ck.extra["sweep_failures"] = len(fails)
@@ -810,7 +948,7 @@ def run(ck: Check):
             fs.sort(key=lambda f: (f["cfg"]["n"], -(f.get("rel_err") or 0)))
             worst = max(fs, key=lambda f: f.get("rel_err") or 0)
             f = fs[0]
-            what = (f"{f['label']} evaluation, {f['cfg']['shape']} {f['cfg']['model']} K={f['cfg'].get('K', 1)} "
+            what = (f"{f['label']} evaluation, {f['cfg'].get('shape')} {f['cfg'].get('model')} K={f['cfg'].get('K', 1)} "
                     f"n={f['cfg']['n']}: {f['kind']} (value {f.get('values')}, reference {f.get('reference')}, "
                     f"rel err {f.get('rel_err')}; worst of {len(fs)}: n={worst['cfg']['n']} rel err {worst.get('rel_err')})")
             ck.violation(sig, what, {"failure": f, "worst": {k: v for k, v in worst.items() if k != "sites"},
@@ -829,6 +967,15 @@ def replay(path: str) -> int:
     if not f:
         print("replay names broken obligations only:", obj.get("broken_obligations"), obj.get("mismatches"))
         return 1
+    if f["kind"] == "direct-disagree":
+        case = f["case"]
+        case["post"] = [tuple(t) for t in case["post"]]
+        vp, _, ep = call_direct(case, "plain")
+        vv, _, ev = call_direct(case, f["variant"])
+        print("plain", ep or float(vp), f["variant"], ev or float(vv))
+        bad = ep is not None or ev is not None or not (rel(float(vp), float(vv)) <= TOL)
+        print("VIOLATES: rescaled and unrescaled evaluation disagree" if bad else "ok")
+        return 1 if bad else 0
     cfg = dict(f["cfg"], sites=f["sites"])
     h = Hist(cfg)
     rec = None
